@@ -714,4 +714,531 @@ theorem main1 : ∀ e : E, wf e = true → relChain e = false → noLHS e = true
   | acons _ _ _ _ => intro _ _ h; simp [noLHS] at h
   | noargs => intro _ _ h; simp [noLHS] at h
 
+/-! ### member access, calls, `new`, argument lists -/
+
+/-- the first step of parseLeftHandSideExpression(AllowCall): a `new` expression or a primary expression -/
+def atomP (n : Nat) (ts : List Tok) : R := if hd ts = .p .kNew then parseNew n ts.tail else parsePrimary n ts
+
+theorem parseLHSCall_eq (n : Nat) (ts : List Tok) :
+    parseLHSCall (n+1) ts = (atomP n ts).bind fun p => memberLoop n true p.1 p.2 := by
+  rw [parseLHSCall]; rfl
+
+theorem parseLHS_eq (n : Nat) (ts : List Tok) :
+    parseLHS (n+1) ts = (atomP n ts).bind fun p => memberLoop n false p.1 p.2 := by
+  rw [parseLHS]; rfl
+
+/-- continuation form for the member/call loop: whatever the loop makes of `e` and the rest is what
+    "atom, then loop" makes of the text of `e` (as the base of an access: position 16) followed by the rest -/
+def MC (c : Bool) (e : E) : Prop := ∀ (R : List Tok) (w : E × List Tok),
+  (∃ n0, ∀ j, n0 ≤ j → memberLoop j c e R = some w) →
+  (∃ n0, ∀ m, n0 ≤ m → (atomP m (pr 16 true e ++ R)).bind (fun p => memberLoop m c p.1 p.2) = some w)
+
+def P17 (e : E) : Prop := ∀ rest, stop 15 rest → Ev (fun n => parseLHS n (pr 17 true e ++ rest)) (e, rest)
+def P18 (e : E) : Prop := ∀ rest, hd rest = .p .lparen → Ev (fun n => parseLHS n (pr 18 true e ++ rest)) (e, rest)
+def ARGS (a : E) : Prop := ∀ R, Ev (fun n => parseArgs n (bare a true ++ tk .rparen :: R)) (a, tk .rparen :: R)
+
+theorem pr_paren_of {lvl : Nat} {e : E} (h : needParen lvl true e = true) :
+    pr lvl true e = tk .lparen :: (bare e true ++ [tk .rparen]) := by simp [pr, wrap, h]
+
+theorem pr_bare_of {lvl : Nat} {e : E} (h : needParen lvl true e = false) : pr lvl true e = bare e true := by
+  simp [pr, wrap, h]
+
+/-- the atom of a parenthesised text -/
+theorem atom_paren {e : E} (rt : RT e) (R : List Tok) :
+    ∃ n0, ∀ m, n0 ≤ m → atomP m (tk .lparen :: (bare e true ++ [tk .rparen]) ++ R) = some (e, R) := by
+  obtain ⟨n0, h⟩ := rt 0 (by omega) (by omega) (tk .rparen :: R) (stop_rparen _ _)
+  refine ⟨n0 + 1, fun m hm => ?_⟩
+  obtain ⟨m', rfl⟩ : ∃ m', m = m'+1 := ⟨m-1, by omega⟩
+  have h' := h m' (by omega)
+  dsimp only at h'
+  rw [parseAt_0, pr_bare (by omega) (Nat.zero_le _)] at h'
+  have hn : hd (tk .lparen :: (bare e true ++ [tk .rparen]) ++ R) ≠ .p .kNew := by simp [hd, tk]
+  simp only [atomP, hn, if_false]
+  simp only [List.cons_append, List.append_assoc, List.nil_append]
+  rw [parsePrimary_paren, h']
+  simp [expectP, tk]
+
+theorem mc_paren {c : Bool} {e : E} (rt : RT e) (h : needParen 16 true e = true) : MC c e := by
+  intro R w ⟨n1, H⟩
+  obtain ⟨n0, h0⟩ := atom_paren rt R
+  refine ⟨max n0 n1, fun m hm => ?_⟩
+  rw [pr_paren_of h, h0 m (by omega)]
+  exact H m (by omega)
+
+theorem mc_leaf {c : Bool} {e : E} {t : Tk} (hb : bare e true = [{ k := t }]) (hc : needParen 16 true e = false)
+    (hprim : ∀ n r, parsePrimary (n+1) ({ k := t } :: r) = some (e, r)) (hnew : t ≠ .p .kNew) : MC c e := by
+  intro R w ⟨n1, H⟩
+  refine ⟨n1 + 1, fun m hm => ?_⟩
+  obtain ⟨m', rfl⟩ : ∃ m', m = m'+1 := ⟨m-1, by omega⟩
+  rw [pr_bare_of hc, hb]
+  have ha : atomP (m'+1) ({ k := t } :: R) = some (e, R) := by
+    unfold atomP; simp [hd, hnew, hprim]
+  rw [List.singleton_append, ha]
+  exact H _ (by omega)
+
+
+theorem bare_dot (e : E) (s : String) : bare (.dot e s) true = pr 16 true e ++ [tk .dot, { k := .id s }] := rfl
+theorem bare_idx (e i : E) : bare (.idx e i) true = pr 16 true e ++ tk .lbrack :: (pr 0 true i ++ [tk .rbrack]) := rfl
+theorem bare_call (f a : E) : bare (.call f a) true = pr 16 true f ++ tk .lparen :: (bare a true ++ [tk .rparen]) := rfl
+theorem bare_newx (f : E) : bare (.new_ f .noargs) true = tk .kNew :: pr 17 true f := rfl
+
+theorem np16_dot (e : E) (s : String) : needParen 16 true (.dot e s) = false := by
+  simp [needParen, cat]
+theorem np16_idx (e i : E) : needParen 16 true (.idx e i) = false := by
+  simp [needParen, cat]
+theorem np16_call (f a : E) : needParen 16 true (.call f a) = false := by simp [needParen, cat]
+
+theorem mc_dot {c : Bool} {e : E} {s : String} (mce : MC c e) : MC c (.dot e s) := by
+  intro R w ⟨n1, H⟩
+  rw [pr_bare_of (np16_dot e s), bare_dot, List.append_assoc]
+  apply mce
+  refine ⟨n1 + 1, fun j hj => ?_⟩
+  obtain ⟨j', rfl⟩ : ∃ j', j = j'+1 := ⟨j-1, by omega⟩
+  rw [memberLoop]
+  simp [hd, tk, dotName]
+  exact H j' (by omega)
+
+theorem mc_idx {c : Bool} {e i : E} (mce : MC c e) (rti : RT i) : MC c (.idx e i) := by
+  intro R w ⟨n1, H⟩
+  rw [pr_bare_of (np16_idx e i), bare_idx, List.append_assoc]
+  apply mce
+  obtain ⟨n2, h2⟩ := rti 0 (by omega) (by omega) (tk .rbrack :: R) (show stopB 0 (.p .rbrack) false = true by decide)
+  refine ⟨max n1 n2 + 1, fun j hj => ?_⟩
+  obtain ⟨j', rfl⟩ : ∃ j', j = j'+1 := ⟨j-1, by omega⟩
+  have h2' := h2 j' (by omega)
+  dsimp only at h2'
+  rw [parseAt_0] at h2'
+  rw [memberLoop]
+  simp only [tk, List.cons_append, List.append_assoc, List.nil_append] at h2' ⊢
+  simp [hd, h2', expectP]
+  exact H j' (by omega)
+
+theorem mc_call {f a : E} (mcf : MC true f) (ha : ARGS a) : MC true (.call f a) := by
+  intro R w ⟨n1, H⟩
+  rw [pr_bare_of (np16_call f a), bare_call, List.append_assoc]
+  apply mcf
+  obtain ⟨n2, h2⟩ := ha R
+  refine ⟨max n1 n2 + 1, fun j hj => ?_⟩
+  obtain ⟨j', rfl⟩ : ∃ j', j = j'+1 := ⟨j-1, by omega⟩
+  have h2' := h2 j' (by omega)
+  dsimp only at h2'
+  rw [memberLoop]
+  simp only [tk, List.cons_append, List.append_assoc, List.nil_append] at h2' ⊢
+  simp [hd, h2', expectP]
+  exact H j' (by omega)
+
+theorem memberLoop_lparen_false (n : Nat) (e : E) (ts : List Tok) (h : hd ts = .p .lparen) :
+    memberLoop (n+1) false e ts = some (e, ts) := by
+  rw [memberLoop]; simp [h]
+
+theorem parseNew_noargs {g : E} (pg : P17 g) (rest : List Tok) (hs : stop 15 rest) :
+    Ev (fun n => parseNew n (pr 17 true g ++ rest)) (.new_ g .noargs, rest) := by
+  obtain ⟨n0, h⟩ := pg rest hs
+  refine ⟨n0 + 1, fun n hn => ?_⟩
+  obtain ⟨m, rfl⟩ : ∃ m, n = m+1 := ⟨n-1, by omega⟩
+  have h' := h m (by omega)
+  dsimp only at h' ⊢
+  rw [parseNew, h']
+  have hf := stop_fires hs 15 (Nat.le_refl _)
+  simp only [fires] at hf
+  have : hd rest ≠ .p .lparen := by intro hx; simp [hx] at hf
+  simp [this]
+
+theorem parseNew_args {f a : E} (pf : P18 f) (ha : ARGS a) (R : List Tok) :
+    Ev (fun n => parseNew n (pr 18 true f ++ tk .lparen :: (bare a true ++ tk .rparen :: R))) (.new_ f a, R) := by
+  obtain ⟨n0, h⟩ := pf (tk .lparen :: (bare a true ++ tk .rparen :: R)) rfl
+  obtain ⟨n1, h1⟩ := ha R
+  refine ⟨max n0 n1 + 1, fun n hn => ?_⟩
+  obtain ⟨m, rfl⟩ : ∃ m, n = m+1 := ⟨n-1, by omega⟩
+  have h' := h m (by omega)
+  have h1' := h1 m (by omega)
+  dsimp only at h' h1' ⊢
+  rw [parseNew, h']
+  simp [hd, tk, expectP] at h1' ⊢
+  simp [h1', expectP]
+
+theorem mc_new {c : Bool} {f a : E} (pf : P18 f) (ha : ARGS a) (hia : isArgs a = true) : MC c (.new_ f a) := by
+  intro R w ⟨n1, H⟩
+  have hnp : needParen 16 true (.new_ f a) = false := by cases a <;> simp_all [needParen, cat, isArgs]
+  have hb : bare (.new_ f a) true = tk .kNew :: (pr 18 true f ++ tk .lparen :: (bare a true ++ [tk .rparen])) := by
+    cases a <;> first | rfl | simp [isArgs] at hia
+  obtain ⟨n0, h0⟩ := parseNew_args pf ha R
+  refine ⟨max n0 n1 + 1, fun m hm => ?_⟩
+  obtain ⟨m', rfl⟩ : ∃ m', m = m'+1 := ⟨m-1, by omega⟩
+  have h0' := h0 (m'+1) (by omega)
+  dsimp only at h0'
+  rw [pr_bare_of hnp, hb]
+  simp only [List.cons_append, List.append_assoc, List.nil_append] at h0' ⊢
+  have : atomP (m'+1) (tk .kNew :: (pr 18 true f ++ tk .lparen :: (bare a true ++ tk .rparen :: R))) = parseNew (m'+1) (pr 18 true f ++ tk .lparen :: (bare a true ++ tk .rparen :: R)) := by
+    simp [atomP, hd, tk]
+  rw [this, h0']
+  exact H _ (by omega)
+
+
+/-! ### operands of `new`, own level of the left-hand-side forms -/
+
+theorem p_paren {lvl : Nat} {e : E} (rt : RT e) (h : needParen lvl true e = true) (rest : List Tok)
+    (hml : ∀ n, memberLoop (n+1) false e rest = some (e, rest)) :
+    Ev (fun n => parseLHS n (pr lvl true e ++ rest)) (e, rest) := by
+  obtain ⟨n0, h0⟩ := atom_paren rt rest
+  refine ⟨n0 + 2, fun n hn => ?_⟩
+  obtain ⟨m, rfl⟩ : ∃ m, n = m+2 := ⟨n-2, by omega⟩
+  dsimp only
+  rw [parseLHS_eq, pr_paren_of h, h0 _ (by omega)]
+  exact hml m
+
+theorem p_of_mc {lvl : Nat} {e : E} (mc : MC false e) (h : needParen lvl true e = false) (h16 : needParen 16 true e = false)
+    (rest : List Tok) (hml : ∀ n, memberLoop (n+1) false e rest = some (e, rest)) :
+    Ev (fun n => parseLHS n (pr lvl true e ++ rest)) (e, rest) := by
+  obtain ⟨n0, h0⟩ := mc rest (e, rest) ⟨1, fun j hj => by
+    obtain ⟨j', rfl⟩ : ∃ j', j = j'+1 := ⟨j-1, by omega⟩
+    exact hml j'⟩
+  refine ⟨n0 + 1, fun n hn => ?_⟩
+  obtain ⟨m, rfl⟩ : ∃ m, n = m+1 := ⟨n-1, by omega⟩
+  dsimp only
+  rw [parseLHS_eq, pr_bare_of h, ← pr_bare_of h16]
+  exact h0 m (by omega)
+
+theorem p17_newx {g : E} (pg : P17 g) : P17 (.new_ g .noargs) := by
+  intro rest hs
+  obtain ⟨n0, h0⟩ := parseNew_noargs pg rest hs
+  refine ⟨n0 + 2, fun n hn => ?_⟩
+  obtain ⟨m, rfl⟩ : ∃ m, n = m+2 := ⟨n-2, by omega⟩
+  have hnp : needParen 17 true (.new_ g .noargs) = false := by simp [needParen, cat]
+  have h0' := h0 (m+1) (by omega)
+  dsimp only at h0' ⊢
+  rw [parseLHS_eq, pr_bare_of hnp, bare_newx]
+  have : atomP (m+1) (tk .kNew :: pr 17 true g ++ rest) = parseNew (m+1) (pr 17 true g ++ rest) := by
+    simp [atomP, hd, tk]
+  rw [this, h0']
+  exact memberLoop_stop _ _ _ _ (stop_fires hs 15 (Nat.le_refl _))
+
+theorem own_newx {g : E} (pg : P17 g) : OWN (.new_ g .noargs) := by
+  intro rest hs
+  have hown : ownStop (.new_ g .noargs) = 15 := by simp [ownStop, prec]
+  rw [hown] at hs
+  obtain ⟨n0, h0⟩ := parseNew_noargs pg rest hs
+  refine ⟨n0 + 2, fun n hn => ?_⟩
+  obtain ⟨m, rfl⟩ : ∃ m, n = m+2 := ⟨n-2, by omega⟩
+  have h0' := h0 (m+1) (by omega)
+  dsimp only at h0' ⊢
+  show parseAt 15 (m+2) (bare (.new_ g .noargs) true ++ rest) = _
+  rw [parseAt_15, parseLHSCall_eq, bare_newx]
+  have : atomP (m+1) (tk .kNew :: pr 17 true g ++ rest) = parseNew (m+1) (pr 17 true g ++ rest) := by
+    simp [atomP, hd, tk]
+  rw [this, h0']
+  exact memberLoop_stop _ _ _ _ (stop_fires hs 15 (Nat.le_refl _))
+
+theorem own_of_mc {e : E} (mc : MC true e) (h16 : needParen 16 true e = false) (hp : prec e = 15) : OWN e := by
+  intro rest hs
+  have hown : ownStop e = 15 := by simp [ownStop, hp]
+  rw [hown] at hs
+  obtain ⟨n0, h0⟩ := mc rest (e, rest) ⟨1, fun j hj => by
+    obtain ⟨j', rfl⟩ : ∃ j', j = j'+1 := ⟨j-1, by omega⟩
+    exact memberLoop_stop _ _ _ _ (stop_fires hs 15 (Nat.le_refl _))⟩
+  refine ⟨n0 + 1, fun n hn => ?_⟩
+  obtain ⟨m, rfl⟩ : ∃ m, n = m+1 := ⟨n-1, by omega⟩
+  dsimp only
+  rw [hp, parseAt_15, parseLHSCall_eq, ← pr_bare_of h16]
+  exact h0 m (by omega)
+
+/-- the two `new` operand positions, from the pieces -/
+theorem p17_generic {e : E} (rt : RT e) (mc : cat e ≠ .C → MC false e) (hN : cat e ≠ .N) : P17 e := by
+  intro rest hs
+  have hml : ∀ n, memberLoop (n+1) false e rest = some (e, rest) :=
+    fun n => memberLoop_stop _ _ _ _ (stop_fires hs 15 (Nat.le_refl _))
+  cases hc : cat e with
+  | M => exact p_of_mc (mc (by simp [hc])) (by simp [needParen, hc]) (by simp [needParen, hc]) rest hml
+  | N => exact absurd hc hN
+  | C => exact p_paren rt (by simp [needParen, hc]) rest hml
+  | X => exact p_paren rt (by simp [needParen, hc]) rest hml
+
+theorem p18_generic {e : E} (rt : RT e) (mc : cat e ≠ .C → MC false e) : P18 e := by
+  intro rest hs
+  have hml : ∀ n, memberLoop (n+1) false e rest = some (e, rest) := fun n => memberLoop_lparen_false _ _ _ hs
+  cases hc : cat e with
+  | M => exact p_of_mc (mc (by simp [hc])) (by simp [needParen, hc]) (by simp [needParen, hc]) rest hml
+  | N => exact p_paren rt (by simp [needParen, hc]) rest hml
+  | C => exact p_paren rt (by simp [needParen, hc]) rest hml
+  | X => exact p_paren rt (by simp [needParen, hc]) rest hml
+
+
+/-! ### argument lists -/
+
+theorem hd_wrap (b : Bool) (e : E) (X : List Tok) :
+    hd (wrap b (fun a => bare e a) true ++ X) = if b then .p .lparen else hd (bare e true ++ X) := by
+  cases b <;> simp [wrap, hd, tk]
+
+/-- no expression starts with `)` -/
+theorem first_ne_rparen : ∀ e : E, wf e = true → isExprHead e = true → ∀ rest, hd (bare e true ++ rest) ≠ .p .rparen := by
+  intro e
+  induction e with
+  | id s => intro _ _ rest; simp [bare, hd]
+  | num s => intro _ _ rest; simp [bare, hd]
+  | str s => intro _ _ rest; simp [bare, hd]
+  | bool s => intro _ _ rest; simp [bare, hd]
+  | null => intro _ _ rest; simp [bare, hd]
+  | this_ => intro _ _ rest; simp [bare, hd, tk]
+  | bin o l r ihl _ =>
+    intro hw _ rest
+    simp only [wf, Bool.and_eq_true] at hw
+    simp only [bare, List.append_assoc, hd_wrap]
+    split
+    · simp
+    · exact ihl hw.1.2 hw.1.1.1 _
+  | un o e _ => intro _ _ rest; cases o <;> simp [bare, hd, tk, unTok]
+  | post i e ih =>
+    intro hw _ rest
+    simp only [wf, Bool.and_eq_true] at hw
+    simp only [bare, List.append_assoc, hd_wrap]
+    split
+    · simp
+    · exact ih hw.1.2 hw.1.1 _
+  | cond c a b ihc _ _ =>
+    intro hw _ rest
+    simp only [wf, Bool.and_eq_true] at hw
+    simp only [bare, List.append_assoc, hd_wrap]
+    split
+    · simp
+    · exact ihc hw.1.1.2 hw.1.1.1.1.1 _
+  | asg o l r ihl _ =>
+    intro hw _ rest
+    simp only [wf, Bool.and_eq_true] at hw
+    simp only [bare, List.append_assoc, hd_wrap]
+    split
+    · simp
+    · exact ihl hw.1.1.2 hw.1.1.1.1 _
+  | dot e s ih =>
+    intro hw _ rest
+    simp only [wf, Bool.and_eq_true] at hw
+    simp only [bare, List.append_assoc, hd_wrap]
+    split
+    · simp
+    · exact ih hw.2 hw.1 _
+  | idx e i ih _ =>
+    intro hw _ rest
+    simp only [wf, Bool.and_eq_true] at hw
+    simp only [bare, List.append_assoc, hd_wrap]
+    split
+    · simp
+    · exact ih hw.1.2 hw.1.1.1 _
+  | call f a ih _ =>
+    intro hw _ rest
+    simp only [wf, Bool.and_eq_true] at hw
+    simp only [bare, List.append_assoc, hd_wrap]
+    split
+    · simp
+    · exact ih hw.1.2 hw.1.1.1 _
+  | new_ f a _ _ => intro _ _ rest; cases a <;> simp [bare, hd, tk]
+  | anil => intro _ h; simp [isExprHead] at h
+  | acons _ _ _ _ => intro _ h; simp [isExprHead] at h
+  | noargs => intro _ h; simp [isExprHead] at h
+
+theorem first_pr_ne_rparen {lvl : Nat} {e : E} (hw : wf e = true) (he : isExprHead e = true) (rest : List Tok) :
+    hd (pr lvl true e ++ rest) ≠ .p .rparen := by
+  unfold pr
+  rw [hd_wrap]
+  split
+  · simp
+  · exact first_ne_rparen e hw he rest
+
+theorem args_nil : ARGS .anil := by
+  intro R
+  refine ⟨1, fun n hn => ?_⟩
+  obtain ⟨m, rfl⟩ : ∃ m, n = m+1 := ⟨n-1, by omega⟩
+  dsimp only
+  rw [parseArgs]
+  simp [bare, hd, tk]
+
+theorem args_last {h : E} (rt : RT h) (hw : wf h = true) (he : isExprHead h = true) : ARGS (.acons h .anil) := by
+  intro R
+  obtain ⟨n0, h0⟩ := rt 1 (by omega) (by omega) (tk .rparen :: R) (stop_rparen _ _)
+  refine ⟨n0 + 1, fun n hn => ?_⟩
+  obtain ⟨m, rfl⟩ : ∃ m, n = m+1 := ⟨n-1, by omega⟩
+  have h0' := h0 m (by omega)
+  dsimp only at h0' ⊢
+  rw [parseAt_1] at h0'
+  show parseArgs (m+1) (pr 1 true h ++ tk .rparen :: R) = _
+  rw [parseArgs, if_neg (first_pr_ne_rparen hw he _), h0']
+  simp [hd, tk]
+
+theorem args_more {h h2 t2 : E} (rt : RT h) (hw : wf h = true) (he : isExprHead h = true) (atl : ARGS (.acons h2 t2)) :
+    ARGS (.acons h (.acons h2 t2)) := by
+  intro R
+  obtain ⟨n0, h0⟩ := rt 1 (by omega) (by omega) (tk .comma :: (bare (.acons h2 t2) true ++ tk .rparen :: R))
+    (show stopB 1 (.p .comma) false = true by decide)
+  obtain ⟨n1, h1⟩ := atl R
+  refine ⟨max n0 n1 + 1, fun n hn => ?_⟩
+  obtain ⟨m, rfl⟩ : ∃ m, n = m+1 := ⟨n-1, by omega⟩
+  have h0' := h0 m (by omega)
+  have h1' := h1 m (by omega)
+  dsimp only at h0' h1' ⊢
+  rw [parseAt_1] at h0'
+  show parseArgs (m+1) ((pr 1 true h ++ tk .comma :: bare (.acons h2 t2) true) ++ tk .rparen :: R) = _
+  simp only [List.append_assoc, List.cons_append]
+  rw [parseArgs, if_neg (first_pr_ne_rparen hw he _), h0']
+  simp [hd, tk] at h1' ⊢
+  simp [h1']
+
+
+/-! ### the full induction -/
+
+def EX (e : E) : Prop :=
+  RT e ∧ (∀ k, isLoopLevel k = true → LC k e) ∧ (∀ c : Bool, (c = false → cat e ≠ .C) → MC c e) ∧ P17 e ∧ P18 e
+
+theorem ex_mk {e : E} (rt : RT e) (lc : ∀ k, isLoopLevel k = true → LC k e)
+    (mc : ∀ c : Bool, (c = false → cat e ≠ .C) → MC c e) (hN : cat e ≠ .N) : EX e :=
+  ⟨rt, lc, mc, p17_generic rt (fun h => mc false (fun _ => h)) hN, p18_generic rt (fun h => mc false (fun _ => h))⟩
+
+theorem ex_X {e : E} (rt : RT e) (lc : ∀ k, isLoopLevel k = true → LC k e) (hX : cat e = .X) : EX e :=
+  ex_mk rt lc (fun _ _ => mc_paren rt (by simp [needParen, hX])) (by simp [hX])
+
+theorem ex_leaf {e : E} {t : Tk} (hb : bare e true = [{ k := t }]) (hp : prec e = 15) (hc : cat e = .M)
+    (hprim : ∀ n r, parsePrimary (n+1) ({ k := t } :: r) = some (e, r)) (hnew : t ≠ .p .kNew)
+    (hnp : notPrefix t) (hne : ∀ o l r, e ≠ .bin o l r) : EX e := by
+  have rt : RT e := rt_of_own (own_leaf hb hp hprim hnew) (fun _ rest => by rw [hb]; exact hnp)
+  exact ex_mk rt (lc_all rt hne) (fun _ _ => mc_leaf hb (by simp [needParen, hc]) hprim hnew) (by simp [hc])
+
+theorem main2 : ∀ e : E, wf e = true → relChain e = false →
+    (isExprHead e = true → EX e) ∧ (isArgs e = true → ARGS e) := by
+  intro e
+  induction e with
+  | id s =>
+    intro _ _; refine ⟨fun _ => ?_, fun h => by simp [isArgs] at h⟩
+    exact ex_leaf (t := .id s) rfl rfl rfl (fun n r => by rw [parsePrimary]) (by simp) ⟨rfl, by simp, by simp⟩ (by simp)
+  | num s =>
+    intro _ _; refine ⟨fun _ => ?_, fun h => by simp [isArgs] at h⟩
+    exact ex_leaf (t := .num s) rfl rfl rfl (fun n r => by rw [parsePrimary]) (by simp) ⟨rfl, by simp, by simp⟩ (by simp)
+  | str s =>
+    intro _ _; refine ⟨fun _ => ?_, fun h => by simp [isArgs] at h⟩
+    exact ex_leaf (t := .str s) rfl rfl rfl (fun n r => by rw [parsePrimary]) (by simp) ⟨rfl, by simp, by simp⟩ (by simp)
+  | bool s =>
+    intro _ _; refine ⟨fun _ => ?_, fun h => by simp [isArgs] at h⟩
+    exact ex_leaf (t := .bool s) rfl rfl rfl (fun n r => by rw [parsePrimary]) (by simp) ⟨rfl, by simp, by simp⟩ (by simp)
+  | null =>
+    intro _ _; refine ⟨fun _ => ?_, fun h => by simp [isArgs] at h⟩
+    exact ex_leaf (t := .null) rfl rfl rfl (fun n r => by rw [parsePrimary]) (by simp) ⟨rfl, by simp, by simp⟩ (by simp)
+  | this_ =>
+    intro _ _; refine ⟨fun _ => ?_, fun h => by simp [isArgs] at h⟩
+    exact ex_leaf (t := .p .kThis) rfl rfl rfl (fun n r => by rw [parsePrimary]) (by simp) ⟨rfl, by simp, by simp⟩ (by simp)
+  | bin o l r ihl ihr =>
+    intro hw hrc; refine ⟨fun _ => ?_, fun h => by simp [isArgs] at h⟩
+    simp only [wf, Bool.and_eq_true] at hw
+    simp only [relChain, Bool.or_eq_false_iff, Bool.and_eq_false_iff] at hrc
+    obtain ⟨rtl, lcl, _⟩ := (ihl hw.1.2 hrc.1.2).1 hw.1.1.1
+    obtain ⟨rtr, _⟩ := (ihr hw.2 hrc.2).1 hw.1.1.2
+    have h14 : ¬ 14 ≤ prec (.bin o l r) := by rw [prec_bin]; cases o <;> simp [binPrec]
+    by_cases hk : isLoopLevel (binPrec o) = true
+    · have rt : RT (.bin o l r) := rt_of_own (own_bin_loop hk (lcl _ hk) rtr) (fun h => absurd h h14)
+      refine ex_X rt (fun k hk' => ?_) rfl
+      by_cases hkk : k = binPrec o
+      · subst hkk; exact lc_bin hk (lcl _ hk) rtr
+      · exact lc_of_rt rt hk' (by rw [prec_bin]; omega)
+    · have ho : isRel o = true := by cases o <;> simp_all [isLoopLevel, binPrec, isRel]
+      have hl9 : prec l ≠ 9 := by
+        rcases hrc.1.1 with h | h
+        · simp [ho] at h
+        · simpa using h
+      have rt : RT (.bin o l r) := rt_of_own (own_rel ho hl9 rtl rtr) (fun h => absurd h h14)
+      refine ex_X rt (fun k hk' => lc_of_rt rt hk' ?_) rfl
+      rw [prec_bin]; intro hkk; rw [← hkk] at hk'; exact hk hk'
+  | un o e ih =>
+    intro hw hrc; refine ⟨fun _ => ?_, fun h => by simp [isArgs] at h⟩
+    simp only [wf, Bool.and_eq_true] at hw
+    simp only [relChain] at hrc
+    obtain ⟨rte, _⟩ := (ih hw.1.2 hrc).1 hw.1.1
+    have rt : RT (.un o e) := rt_of_own (own_un rte (fun h => by simpa [h] using hw.2)) (fun h => by simp [prec] at h)
+    exact ex_X rt (lc_all rt (by simp)) rfl
+  | post i e ih =>
+    intro hw hrc; refine ⟨fun _ => ?_, fun h => by simp [isArgs] at h⟩
+    have hw0 := hw
+    simp only [wf, Bool.and_eq_true] at hw
+    simp only [relChain] at hrc
+    obtain ⟨rte, _⟩ := (ih hw.1.2 hrc).1 hw.1.1
+    have rt : RT (.post i e) := rt_of_own (own_post rte hw.2) (fun h rest => first_ok _ hw0 rfl h rest)
+    exact ex_X rt (lc_all rt (by simp)) rfl
+  | cond c a b ihc iha ihb =>
+    intro hw hrc; refine ⟨fun _ => ?_, fun h => by simp [isArgs] at h⟩
+    simp only [wf, Bool.and_eq_true] at hw
+    simp only [relChain, Bool.or_eq_false_iff] at hrc
+    obtain ⟨rtc, _⟩ := (ihc hw.1.1.2 hrc.1.1).1 hw.1.1.1.1.1
+    obtain ⟨rta, _⟩ := (iha hw.1.2 hrc.1.2).1 hw.1.1.1.1.2
+    obtain ⟨rtb, _⟩ := (ihb hw.2 hrc.2).1 hw.1.1.1.2
+    have rt : RT (.cond c a b) := rt_of_own (own_cond rtc rta rtb) (fun h => by simp [prec] at h)
+    exact ex_X rt (lc_all rt (by simp)) rfl
+  | asg o l r ihl ihr =>
+    intro hw hrc; refine ⟨fun _ => ?_, fun h => by simp [isArgs] at h⟩
+    simp only [wf, Bool.and_eq_true] at hw
+    simp only [relChain, Bool.or_eq_false_iff] at hrc
+    obtain ⟨rtl, _⟩ := (ihl hw.1.1.2 hrc.1).1 hw.1.1.1.1
+    obtain ⟨rtr, _⟩ := (ihr hw.1.2 hrc.2).1 hw.1.1.1.2
+    have rt : RT (.asg o l r) := rt_of_own (own_asg rtl rtr hw.2 (fun rest => first_pr (by omega) (by omega) hw.1.1.2 hw.1.1.1.1 rest))
+      (fun h => by simp [prec] at h)
+    exact ex_X rt (lc_all rt (by simp)) rfl
+  | dot e s ih =>
+    intro hw hrc; refine ⟨fun _ => ?_, fun h => by simp [isArgs] at h⟩
+    have hw0 := hw
+    simp only [wf, Bool.and_eq_true] at hw
+    simp only [relChain] at hrc
+    obtain ⟨_, _, mce, _, _⟩ := (ih hw.2 hrc).1 hw.1
+    have mc : ∀ c : Bool, (c = false → cat (.dot e s) ≠ .C) → MC c (.dot e s) := fun c hc =>
+      mc_dot (mce c (fun h hC => hc h (by simp [cat, hC])))
+    have rt : RT (.dot e s) := rt_of_own (own_of_mc (mc true (by simp)) (np16_dot e s) rfl) (fun h rest => first_ok _ hw0 rfl h rest)
+    exact ex_mk rt (lc_all rt (by simp)) mc (by simp [cat]; split <;> simp)
+  | idx e i ihe ihi =>
+    intro hw hrc; refine ⟨fun _ => ?_, fun h => by simp [isArgs] at h⟩
+    have hw0 := hw
+    simp only [wf, Bool.and_eq_true] at hw
+    simp only [relChain, Bool.or_eq_false_iff] at hrc
+    obtain ⟨_, _, mce, _, _⟩ := (ihe hw.1.2 hrc.1).1 hw.1.1.1
+    obtain ⟨rti, _⟩ := (ihi hw.2 hrc.2).1 hw.1.1.2
+    have mc : ∀ c : Bool, (c = false → cat (.idx e i) ≠ .C) → MC c (.idx e i) := fun c hc =>
+      mc_idx (mce c (fun h hC => hc h (by simp [cat, hC]))) rti
+    have rt : RT (.idx e i) := rt_of_own (own_of_mc (mc true (by simp)) (np16_idx e i) rfl) (fun h rest => first_ok _ hw0 rfl h rest)
+    exact ex_mk rt (lc_all rt (by simp)) mc (by simp [cat]; split <;> simp)
+  | call f a ihf iha =>
+    intro hw hrc; refine ⟨fun _ => ?_, fun h => by simp [isArgs] at h⟩
+    have hw0 := hw
+    simp only [wf, Bool.and_eq_true] at hw
+    simp only [relChain, Bool.or_eq_false_iff] at hrc
+    obtain ⟨_, _, mcf, _, _⟩ := (ihf hw.1.2 hrc.1).1 hw.1.1.1
+    have aa := (iha hw.2 hrc.2).2 hw.1.1.2
+    have mc : ∀ c : Bool, (c = false → cat (.call f a) ≠ .C) → MC c (.call f a) := fun c hc => by
+      cases c
+      · exact absurd rfl (hc rfl)
+      · exact mc_call (mcf true (by simp)) aa
+    have rt : RT (.call f a) := rt_of_own (own_of_mc (mc true (by simp)) (np16_call f a) rfl) (fun h rest => first_ok _ hw0 rfl h rest)
+    exact ex_mk rt (lc_all rt (by simp)) mc (by simp [cat])
+  | new_ f a ihf iha =>
+    intro hw hrc; refine ⟨fun _ => ?_, fun h => by simp [isArgs] at h⟩
+    have hw0 := hw
+    simp only [wf, Bool.and_eq_true, Bool.or_eq_true] at hw
+    simp only [relChain, Bool.or_eq_false_iff] at hrc
+    obtain ⟨rtf, _, mcf, p17f, p18f⟩ := (ihf hw.1.2 hrc.1).1 hw.1.1.1
+    rcases hw.1.1.2 with hia | hna
+    · have aa := (iha hw.2 hrc.2).2 hia
+      have hcat : cat (.new_ f a) = .M := by cases a <;> simp_all [cat, isArgs]
+      have hnp : needParen 16 true (.new_ f a) = false := by simp [needParen, hcat]
+      have mc : ∀ c : Bool, (c = false → cat (.new_ f a) ≠ .C) → MC c (.new_ f a) := fun c _ => mc_new p18f aa hia
+      have rt : RT (.new_ f a) := rt_of_own (own_of_mc (mc true (by simp)) hnp rfl) (fun h rest => first_ok _ hw0 rfl h rest)
+      exact ex_mk rt (lc_all rt (by simp)) mc (by simp [hcat])
+    · have hna' : a = .noargs := by simpa using hna
+      subst hna'
+      have rt : RT (.new_ f .noargs) := rt_of_own (own_newx p17f) (fun h rest => first_ok _ hw0 rfl h rest)
+      have mc : ∀ c : Bool, (c = false → cat (.new_ f .noargs) ≠ .C) → MC c (.new_ f .noargs) :=
+        fun _ _ => mc_paren rt (by simp [needParen, cat])
+      exact ⟨rt, lc_all rt (by simp), mc, p17_newx p17f, p18_generic rt (fun h => mc false (fun _ => h))⟩
+  | anil => intro _ _; exact ⟨fun h => by simp [isExprHead] at h, fun _ => args_nil⟩
+  | acons h tl ihh iht =>
+    intro hw hrc; refine ⟨fun h => by simp [isExprHead] at h, fun _ => ?_⟩
+    simp only [wf, Bool.and_eq_true] at hw
+    simp only [relChain, Bool.or_eq_false_iff] at hrc
+    obtain ⟨rth, _⟩ := (ihh hw.1.2 hrc.1).1 hw.1.1.1
+    have atl := (iht hw.2 hrc.2).2 hw.1.1.2
+    cases tl with
+    | anil => exact args_last rth hw.1.2 hw.1.1.1
+    | acons h2 t2 => exact args_more rth hw.1.2 hw.1.1.1 atl
+    | _ => simp [isArgs] at hw
+  | noargs => intro _ _; exact ⟨fun h => by simp [isExprHead] at h, fun h => by simp [isArgs] at h⟩
+
 end OttoVerif.C03.Lem
